@@ -1200,3 +1200,130 @@ func hostileChecks(t *testing.T) {
 func streamReplay(hostileFirst bool) string {
 	return replayStreamSrc + fmt.Sprintf("\nconst hostileFirst = %v\n", hostileFirst)
 }
+
+// ---------- C20 (daemon) ----------
+func init() { replayGens["c20"] = replayC20 }
+
+func replayC20(o *Obligation) (string, string, string, bool) {
+	if !strings.HasPrefix(o.Name, "daemon.") {
+		return "", "", "", false
+	}
+	src := `package daemon
+
+import (
+	"context"
+	"fmt"
+	"sync"
+	"sync/atomic"
+	"testing"
+	"time"
+)
+
+// oracle: (1) shutdown order - a worker's context is cancelled only after every worker of a higher order has
+// returned, ShutdownAndWait returns after all of them; (2) registrations racing with ShutdownAndWait: every
+// worker that BackgroundWorker accepted has returned when ShutdownAndWait returns (bounded stress, the
+// interleaving is not forced).
+func TestVerifReplay(t *testing.T) {
+	// (1) ordering with slow workers, ties, gaps, negative orders, and one worker that finished early
+	for round := 0; round < 20; round++ {
+		d := New()
+		orders := []int{5, 5, 3, -1, 0, 7, 3, 100, -50}
+		var mu sync.Mutex
+		returned := map[int]int{} // order -> workers returned
+		total := map[int]int{}
+		violation := ""
+		for i, o := range orders {
+			o := o
+			total[o]++
+			_ = d.BackgroundWorker(fmt.Sprintf("w%d", i), func(ctx context.Context) {
+				<-ctx.Done()
+				mu.Lock()
+				for ho, n := range total {
+					if ho > o && returned[ho] < n && violation == "" {
+						violation = fmt.Sprintf("worker of order %d was cancelled while only %d of %d workers of order %d had returned", o, returned[ho], n, ho)
+					}
+				}
+				mu.Unlock()
+				time.Sleep(time.Duration(1+(o+50)%3) * time.Millisecond)
+				mu.Lock()
+				returned[o]++
+				mu.Unlock()
+			}, o)
+		}
+		_ = d.BackgroundWorker("early", func(ctx context.Context) {}, 4)
+		d.Start()
+		time.Sleep(time.Millisecond)
+		d.ShutdownAndWait()
+		mu.Lock()
+		for o, n := range total {
+			if returned[o] != n && violation == "" {
+				violation = fmt.Sprintf("ShutdownAndWait returned while %d of %d workers of order %d were still running", n-returned[o], n, o)
+			}
+		}
+		v := violation
+		mu.Unlock()
+		if v != "" {
+			t.Fatalf("REPLAY-VIOLATION %s", v)
+		}
+	}
+	// (2) registrations racing with shutdown
+	for iter := 0; iter < 300; iter++ {
+		d := New()
+		_ = d.BackgroundWorker("base", func(ctx context.Context) { <-ctx.Done() }, 1)
+		d.Start()
+		var accepted []string
+		panicked := ""
+		var finished sync.Map
+		var mu sync.Mutex
+		var stop atomic.Bool
+		var wg sync.WaitGroup
+		for g := 0; g < 4; g++ {
+			wg.Add(1)
+			go func(g int) {
+				defer wg.Done()
+				defer func() {
+					if r := recover(); r != nil {
+						mu.Lock()
+						panicked = fmt.Sprint(r)
+						mu.Unlock()
+					}
+				}()
+				for i := 0; !stop.Load() && i < 100; i++ {
+					name := fmt.Sprintf("w%d-%d", g, i)
+					err := d.BackgroundWorker(name, func(ctx context.Context) { <-ctx.Done(); finished.Store(name, true) }, g+2)
+					if err == nil {
+						mu.Lock()
+						accepted = append(accepted, name)
+						mu.Unlock()
+					}
+				}
+			}(g)
+		}
+		time.Sleep(time.Duration(iter%5) * 50 * time.Microsecond)
+		returnedCh := make(chan struct{})
+		go func() { d.ShutdownAndWait(); close(returnedCh) }()
+		select {
+		case <-returnedCh:
+		case <-time.After(3 * time.Second):
+			t.Fatalf("REPLAY-VIOLATION a registration racing with ShutdownAndWait (iteration %d): ShutdownAndWait did not return within 3s (it waits for a worker that was registered behind its snapshot and is never cancelled)", iter)
+		}
+		stop.Store(true)
+		wg.Wait()
+		time.Sleep(2 * time.Millisecond)
+		mu.Lock()
+		if panicked != "" {
+			mu.Unlock()
+			t.Fatalf("REPLAY-VIOLATION a registration racing with ShutdownAndWait (iteration %d): BackgroundWorker panicked: %s", iter, panicked)
+		}
+		for _, n := range accepted {
+			if _, ok := finished.Load(n); !ok {
+				mu.Unlock()
+				t.Fatalf("REPLAY-VIOLATION a registration racing with ShutdownAndWait (iteration %d): BackgroundWorker(%s) returned nil, but the worker is still running after ShutdownAndWait returned (it was never cancelled)", iter, n)
+			}
+		}
+		mu.Unlock()
+	}
+}
+`
+	return "app", "daemon", src, true
+}
